@@ -2695,16 +2695,42 @@ class Normalizer:
                 continue
             present = {st.name for st in tree.body if isinstance(st, FuncNode + (ast.ClassDef,))}
             want = {q for q in inv.get('functions', []) if '.' not in q} | {q for q in inv.get('classes', []) if '.' not in q}
+            renamed = {}
             for name in sorted(want - present):
-                homes = [(rel2, st) for rel2, t2 in self.trees.items() if rel2 != rel for st in t2.body if isinstance(st, FuncNode + (ast.ClassDef,)) and st.name == name]
+                variants = [name] + [v for v in (name.lstrip('_'), '_' + name) if v != name and v]
+                homes = []
+                for v in variants:
+                    homes = [(rel2, st) for rel2, t2 in self.trees.items() if rel2 != rel for st in t2.body if isinstance(st, FuncNode + (ast.ClassDef,)) and st.name == v]
+                    if homes:
+                        break
                 if len(homes) != 1:
                     continue
                 rel2, node = homes[0]
-                if name in {q for q in self.inv.get(rel2, {}).get('functions', []) + self.inv.get(rel2, {}).get('classes', [])}:
+                found = node.name
+                if found in {q for q in self.inv.get(rel2, {}).get('functions', []) + self.inv.get(rel2, {}).get('classes', [])}:
                     continue  # it belongs there
-                # only when this module still refers to it (imports it back)
-                if not any(isinstance(n, ast.ImportFrom) and any(a.name == name for a in n.names) for n in ast.walk(tree)) and not any(isinstance(n, ast.Attribute) and n.attr == name for n in ast.walk(tree)):
+                # only when this module still refers to it (imports it back, or reaches it through the imported module)
+                mod_aliases = {(a.asname or a.name) for st_ in tree.body if isinstance(st_, ast.ImportFrom) for a in st_.names if self._module_of_import(rel, st_.level, ((st_.module + '.') if st_.module else '') + a.name) == rel2}
+                by_name = any(isinstance(n, ast.ImportFrom) and any(a.name == found for a in n.names) for n in ast.walk(tree))
+                by_attr = any(isinstance(n, ast.Attribute) and n.attr == found and isinstance(n.value, ast.Name) and n.value.id in mod_aliases for n in ast.walk(tree))
+                if not by_name and not by_attr and not any(isinstance(n, ast.Attribute) and n.attr == found for n in ast.walk(tree)):
                     continue
+                if found != name:
+                    if not by_attr and not by_name:
+                        continue
+                    renamed[found] = name
+                    node.name = name
+                if by_attr:
+                    for par in ast.walk(tree):
+                        for fld, val in ast.iter_fields(par):
+                            vals = val if isinstance(val, list) else [val]
+                            for i_, x in enumerate(vals):
+                                if isinstance(x, ast.Attribute) and x.attr == found and isinstance(x.value, ast.Name) and x.value.id in mod_aliases:
+                                    nn = ast.copy_location(ast.Name(id=name, ctx=x.ctx), x)
+                                    if isinstance(val, list):
+                                        val[i_] = nn
+                                    else:
+                                        setattr(par, fld, nn)
                 self.trees[rel2].body.remove(node)
                 tree.body.append(node)
                 have = {ast.dump(st) for st in tree.body if isinstance(st, (ast.Import, ast.ImportFrom))}
@@ -2725,8 +2751,15 @@ class Normalizer:
                         if not st.names:
                             tree.body.remove(st)
                 self.stats['rehomed'] = self.stats.get('rehomed', 0) + 1
-                self.log.append(f'{rel}: {name} (now defined in {rel2}) is read in the module the design tree has it in')
+                self.log.append(f'{rel}: {name} (now defined in {rel2}{" as " + found if found != name else ""}) is read in the module the design tree has it in')
                 ast.fix_missing_locations(tree)
+            if renamed:
+                # the moved definitions call each other by their new names
+                for st_ in tree.body:
+                    if isinstance(st_, FuncNode + (ast.ClassDef,)) and st_.name in renamed.values():
+                        for n in ast.walk(st_):
+                            if isinstance(n, ast.Name) and n.id in renamed:
+                                n.id = renamed[n.id]
 
     def _flatten_new_bases(self):
         """A class of the inventory that now inherits from a NEW class of the package (a mixin / extracted base that the
